@@ -247,6 +247,14 @@ func (e *env) run(p *Program, c *Corpus, dir string, files []string, cs Case) (*
 		}
 	}
 	if si >= 0 {
+		if p.Cmd == "heatmap" && si >= 2 {
+			// the indentation of the legend and the column-header line depends
+			// on whether the 100 ms ticker rendered before the final render
+			// (known finding C03/heatmap/snapshot-differs/indentation-only of
+			// the schedule-controlled harness): timing, so not compared here
+			lines[0] = strings.TrimLeft(lines[0], " ")
+			lines[1] = strings.TrimLeft(lines[1], " ")
+		}
 		o.body = strings.Join(lines[:si+1], "\n")
 		rest := lines[si+1:]
 		// the status line (progress of the readers) follows the summary
@@ -290,7 +298,11 @@ func worker(w *runner.W) {
 		n int
 	}
 	var jobs []job
+	only := w.Param("only", "") // debugging aid: -p only=<program>
 	for _, p := range programs() {
+		if only != "" && p.Name != only {
+			continue
+		}
 		for _, cn := range p.Corpora {
 			jobs = append(jobs, job{p, corpora[cn], n})
 		}
